@@ -605,6 +605,13 @@ func c13Random(rng *Rng, typ string) *c13Case {
 		return l
 	}
 	l := sl(40)
+	if rng.Chance(1, 12) {
+		// long inputs: implementations may switch strategy on size (a "fast path" for short slices)
+		l = sl(300)
+		for len(l) < 70 {
+			l = append(l, val())
+		}
+	}
 	fns := []string{"length", "len", "isempty", "isnotempty", "last", "head", "tail", "poplast", "iter", "sort", "sort", "distinct", "distinct",
 		"item", "take", "take", "skip", "skip", "map", "mapi", "filter", "forall", "forany", "tryfind", "fold", "sortby", "sortby", "sortby",
 		"pushlast", "pushhead", "collect", "zip", "append", "concat"}
@@ -662,7 +669,7 @@ func runC13(c *Ctx) {
 	sliceInventory(c)
 	c.Res.Rule = "every function of pkg/slice on all int and string slices of length <= 4 over a 3-value alphabet (exhaustive; " +
 		"two-argument functions on all pairs of them, Concat on all lists of <= 3 slices of length <= 2), every index/count from " +
-		"-2 to len+2, every callback of the shared family; plus random slices up to length 40 (sorted, reversed, with duplicates); " +
+		"-2 to len+2, every callback of the shared family; plus random slices up to length 40, one in twelve of length 70..300 (sorted, reversed, with duplicates); " +
 		"arguments are sub-slices of a larger array (offset 1, spare capacity 1); non-trivial = some argument slice is non-empty; " +
 		"distinct by (element type, oracle request)"
 	if c.Replay != "" {
